@@ -191,7 +191,7 @@ func runC01(r *rep.R) {
 		key, msg := c01One(c, r)
 		r.Eval(rep.H(fmt.Sprintf("%+v", c)), true)
 		r.Trace()
-		if idx%20011 == 1 {
+		if r.WantSample() {
 			r.Sample(c)
 		}
 		if key != "" {
